@@ -12,7 +12,7 @@ from vp.shims.net import Addr, FakeTransport
 PROPERTY = 'C11'
 SHAPE = 'G9'  # task a -> regression b (run 0); thorough adds G3 (analysis)
 
-EVENTS = ['REG r1', 'REG r0', 'DISC', 'STATUS r1', 'STATUS r0', 'DISPATCH', 'FLIP', 'REQ a', 'REQ a rid7', 'REQ b', 'NOTIFY', 'REPLY']
+EVENTS = ['REG r1', 'REG r0', 'DISC', 'STATUS r1', 'STATUS r0', 'DISPATCH', 'FLIP', 'REQ a', 'REQ a rid7', 'REQ b', 'NOTIFY', 'REPLY', 'TIMER a', 'REQ b rid7']
 
 
 class H:
@@ -123,6 +123,11 @@ def body(shape, k, sel):
                 expect_rid[tag] = new
                 if rid:
                     seen_rids.add(7)
+            elif name == 'TIMER a':
+                # the periodic event of the first algorithm becomes due (real schedule.defer): it carries no run id
+                rt.note(name)
+                w.timer(w.order[0])
+                expect_rid[w.order[0]] = ('fresh',)
             elif name == 'NOTIFY':
                 rt.note(name)
                 farm.notify_all()
@@ -133,11 +138,17 @@ def body(shape, k, sel):
                 rt.note(f'REPLY {m.jobid}[{m.target}] ok')
                 names = w.ae.values_of(w.ae.alg(*m.jobid.split('.')))
                 tgt = m.target if m.target else '__all__'
+                had_todo = {t for t in w.order if list(w.nodes[t].get('todo'))}
                 farm.Hand._res(message.make(typ=message.Type.response, inc=m.target, jid=m.jobid, rid=m.runid, suc=True, tim={'started': 's'},
                                             val=[(f'{m.runid}.{tgt}.{v}', True) for v in names]))
                 for child in w.down[m.jobid]:
                     if child in [t for t in w.order if m.jobid in w.ae.parents(w.ae.alg(*t.split('.')))]:
-                        expect_rid[child] = ('given', m.runid)
+                        prev = expect_rid.get(child)
+                        new = ('given', m.runid)
+                        if child in had_todo and prev and prev[0] in ('given', 'fresh'):
+                            # same merge as for a request: work still waiting under the child keeps the later run id
+                            new = ('fresh',) if prev[0] == 'fresh' else ('given', max(prev[1], m.runid))
+                        expect_rid[child] = new
             # ---- what was written in this event --------------------------------
             for x in hs:
                 for m in _drain(x):
@@ -179,7 +190,9 @@ def body(shape, k, sel):
                     if expect_rid.get(t, ('fresh',))[0] == 'fresh' and w.kind[t] != 'regress':
                         pass
                 for t in {t for t, _ in rel}:
-                    expect_rid[t] = ('sent',)
+                    # targets of the job that were not released stay pending under the same expectation
+                    if not list(w.nodes[t].get('todo')):
+                        expect_rid[t] = ('sent',)
             if (w.fingerprint(), w.fsm.active, tuple((x.lost, x.tasks, x.registered) for x in hs), len(inflight)) == fp:
                 return
 
@@ -210,7 +223,7 @@ def _check_msg(w, m, expect_rid, seen_rids, note=True):
 INFO = {
     'explanation': 'Bounded-history symbolic exploration of the real farm on a task->regression graph: Hand._process/_reg/notify/do/connectionLost, '
     'farm.dispatch/notify_all/rerunid/_put/something_to_do with fake transports. The schedule (register with matching or stale revision, '
-    'disconnect, status poll, dispatch tick, life-cycle flip active/inactive, requests with and without a run id, notify, a worker reply) is a '
+    'disconnect, status poll, dispatch tick, life-cycle flip active/inactive, requests with and without a run id, a periodic event becoming due, notify, a worker reply) is a '
     'vector of z3 selectors exhausted by CrossHair. Every byte written to every transport is decoded: a task goes only to a connection that '
     'registered with the current revision, is still connected and got no task before; none while inactive; stale registrations/status polls '
     'get abort+close; idle workers are told to leave (abort, close, dropped) while inactive and only then; each task message carries its job, '
@@ -218,7 +231,7 @@ INFO = {
     'rule': 'one case = one event history; non-trivial = a task, an abort or a stale registration was observed',
     'functions': ['pl.farm.Hand._process', 'Hand._reg', 'Hand.notify', 'Hand.do', 'Hand.connectionLost', 'pl.farm.dispatch', 'pl.farm.notify_all', 'pl.farm.something_to_do',
                   'pl.farm.rerunid', 'pl.farm._put', 'pl.farm._cluster_sort', 'pl.farm._workers_sort', 'pl.message.make/send/dumps'],
-    'bounds': {'quick': 'graph task->regression, target T1/T2, histories of <=5 events from 12 kinds; directed 7-event histories (two workers, a unit completes with new data, then 2 free events)', 'thorough': 'same + task->analysis graph, histories of <=6 events'},
+    'bounds': {'quick': 'graph task->regression, target T1/T2, histories of <=5 events from 14 kinds (incl. a periodic event becoming due); a directed family on a task->task chain (the dependent released for one target while the other waits, then 3 free events); directed 7-event histories (two workers, a unit completes with new data, then 2 free events)', 'thorough': 'same + task->analysis graph, histories of <=6 events'},
     'assumptions': ['archiving_trigger() of the fake life-cycle machine makes the pipeline inactive until a FLIP event (the real machine leaves running); fake transports; db.next is a counter (the real shelve.next is covered by C08); context.fsm is a two-flag fake (active, waiting-on-crew false)',
                     'one register per worker connection (worker.cluster.execute); replies arrive on fresh connections'],
     'outside': ['cloud (AWS) agency', 'longer histories', 'more than ~4 concurrent workers (bounded by history length)'],
@@ -245,6 +258,14 @@ def obligations(tier):
             out.append(ob.make(f'{shape}-directed-{tag}', shape, 'vp.harness.c11:body', ', '.join(f'{v}: int' for v in fr), [' and '.join(f'0 <= {v} < {n}' for v in fr)],
                                f"{{'shape': {shape!r}, 'k': {len(pi) + len(fr)}, 'sel': [{', '.join(map(str, pi))}, {', '.join(fr)}]}}",
                                timeout=900, imports=f'from vp.harness import sched\nsched.prepare({shape!r})'))
+    # directed family on a task->task chain: the dependent is released for one target while the other waits for
+    # its ancestor (one job, two targets, two dispatch ticks), then free events incl. a request carrying a run id
+    pi = [EVENTS.index(x) for x in ['REG r1', 'REQ a', 'DISPATCH', 'REQ b', 'DISPATCH']]
+    fr = ['f0', 'f1', 'f2'] if tier == 'quick' else ['f0', 'f1', 'f2', 'f3']
+    out.append(ob.make('G2-directed-partial-release', 'G2', 'vp.harness.c11:body', ', '.join(f'{v}: int' for v in fr), [' and '.join(f'0 <= {v} < {n}' for v in fr)],
+                       f"{{'shape': 'G2', 'k': {len(pi) + len(fr)}, 'sel': [{', '.join(map(str, pi))}, {', '.join(fr)}]}}",
+                       timeout=900 if tier == 'quick' else 3000, imports="from vp.harness import sched\nsched.prepare('G2')"))
+    for shape, k in cfgs:
         allv = [f'e{i}' for i in range(k)]
         out.append(ob.make(f'{shape}', shape, 'vp.harness.c11:body', ', '.join(f'{v}: int' for v in allv), [' and '.join(f'0 <= {v} < {n}' for v in allv)],
                            f"{{'shape': {shape!r}, 'k': {k}, 'sel': [{', '.join(allv)}]}}", timeout=300, twin=True, imports=f'from vp.harness import sched\nsched.prepare({shape!r})'))
